@@ -10,6 +10,10 @@
     find_lanelet_by_position       (:1973-1995), find_lanelet_by_shape (:1997-2012)
     Lanelet.get_obstacles          (:706-741), map_obstacles_to_lanelets (:2086-2104), filter_obstacles_in_network (:2064-2084)
 
+  NOT modelled here: changing a lanelet that is already in a network (`Lanelet.translate_rotate`, the vertex setters,
+  `LaneletNetwork.translate_rotate`).  Whether derived data such as this index follows such a mutation is property C11
+  ("derived data never goes stale"); C06 is about networks as built, copied and read.
+
   A shapely polygon is an *object*: the reverse map is keyed by `id(polygon)`.  Object identity is modelled by an
   address `addr : Nat`; `copy.deepcopy` / `pickle` relabel addresses by a function `f` (fresh objects), keeping
   sharing (deepcopy memo / pickle memo).  The geometric predicates (`within` for `dwithin(·, 1e-15)`, `meets` for
@@ -25,11 +29,27 @@ structure PolyObj where
   ring : List Pt
   deriving DecidableEq, Repr
 
-/-- What the index needs of a lanelet: id and `lanelet.polygon.shapely_object`. -/
+/-- `Lanelet.polygon` (lanelet.py:636-640, the same in `convert_to_2d`):
+    `Polygon(np.concatenate((right_vertices, np.flip(left_vertices, 0))))` — the right boundary followed by the
+    reversed left boundary. -/
+def laneletRing (right left : List Pt) : List Pt := right ++ left.reverse
+
+/-- What the index needs of a lanelet: id, the two boundary polylines, and the identity (`addr`) of the shapely
+    polygon object `lanelet.polygon.shapely_object`. -/
 structure Lanelet where
   id : Int
-  poly : PolyObj
+  addr : Nat
+  left : List Pt
+  right : List Pt
   deriving DecidableEq, Repr
+
+/-- `lanelet.polygon.shapely_object`: the object `addr` with the ring of the two boundaries. -/
+def Lanelet.poly (l : Lanelet) : PolyObj := ⟨l.addr, laneletRing l.right l.left⟩
+
+/-- `Lanelet.contains_points(point_list)` (lanelet.py:688-704): asserts a polyline-like array (at least two
+    points), then `[self._polygon.contains_point(p) for p in point_list]`. -/
+def Lanelet.containsPoints (l : Lanelet) (pts : List Pt) : Res (List Bool) :=
+  if pts.length < 2 then .error .assert else .ok (pts.map (fun p => polyContains l.poly.ring p))
 
 structure Net where
   lanelets : List Lanelet            -- `_lanelets` (dict, insertion order)
@@ -85,7 +105,7 @@ def addFromNetwork (n : Net) (ls : List Lanelet) : Net × Bool :=
   let r := addManyLoop n true ls
   (createStrtree r.1, r.2)
 
-def relabelL (f : Nat → Nat) (l : Lanelet) : Lanelet := { l with poly := { l.poly with addr := f l.poly.addr } }
+def relabelL (f : Nat → Nat) (l : Lanelet) : Lanelet := { l with addr := f l.addr }
 
 /-- `create_from_lanelet_list(lanelets)`: each lanelet is deep-copied (addresses relabelled by `f`), added without
     rebuilding (a repeated id is skipped), one rebuild at the end. -/
